@@ -8,7 +8,7 @@ import tempfile
 
 from hypothesis import strategies as st
 
-from vlib.runner import good, bad, HarnessError
+from vlib.runner import good, bad, HarnessError, BaselineBroken
 from vlib.det import DET
 from vlib import scenario as sc
 from vlib.refs import rsa as rrsa
@@ -359,6 +359,14 @@ def dsa_like_negative(case, sig, order, labels, verify, kind):
         sig2 = der_seq(der_int(0) + der_int(s))
     elif m == "s_zero":
         sig2 = der_seq(der_int(r) + der_int(0))
+    elif m == "r1_s0":
+        # (s = 0 makes w = 0 and the recomputed value 1: a fixed forgery
+        # unless the range check is strict)
+        sig2 = der_seq(der_int(1) + der_int(0))
+    elif m == "r0_s0":
+        sig2 = der_seq(der_int(0) + der_int(0))
+    elif m == "r1_sq":
+        sig2 = der_seq(der_int(1) + der_int(order))
     elif m == "r_order":
         sig2 = der_seq(der_int(order) + der_int(s))
     elif m == "s_order":
@@ -686,6 +694,7 @@ class FaultyKey(object):
         object.__setattr__(self, "_real", real)
         object.__setattr__(self, "_mode", mode)
         object.__setattr__(self, "fired", 0)
+        object.__setattr__(self, "armed", True)
 
     def __getattr__(self, name):
         return getattr(self._real, name)
@@ -694,6 +703,8 @@ class FaultyKey(object):
         return len(self._real)
 
     def _corrupt(self, sig):
+        if not self.armed:
+            return sig
         object.__setattr__(self, "fired", self.fired + 1)
         b = bytearray(sig)
         if self._mode == "flip_last":
@@ -732,6 +743,13 @@ FAULT_FLAVOURS = {
                                  who="c"),
     "tls11-client-rsa": dict(v="tls11", kx=["rsa"], cred="rsa",
                              ccred="c_rsa", who="c"),
+    # the fault strikes during post-handshake authentication
+    "tls13-pha-rsa": dict(v="tls13", cred="rsa", ccred="c_rsa", who="c",
+                          pha=True),
+    "tls13-pha-ecdsa": dict(v="tls13", cred="rsa", ccred="c_ecdsa", who="c",
+                            pha=True),
+    "tls13-pha-ed25519": dict(v="tls13", cred="rsa", ccred="c_ed25519",
+                              who="c", pha=True),
 }
 
 
@@ -752,13 +770,44 @@ def do_fault(case):
         server["privateKey"] = fk
     if f.get("ccred"):
         cchain, ckey = sc.cred(f["ccred"])
-        server["reqCert"] = True
+        server["reqCert"] = not f.get("pha")
         client["certChain"], client["privateKey"] = cchain, ckey
         if f["who"] == "c":
             fk = FaultyKey(ckey, case["mode"])
             client["privateKey"] = fk
     DET.reseed("C10fault", case["fl"], case["mode"])
+    if f.get("pha"):
+        object.__setattr__(fk, "armed", False)
     p = sc.connect(client, server)
+    if f.get("pha"):
+        if not p.both_ok:
+            raise BaselineBroken("pha-base-handshake", "%r %r" % (p.co, p.so))
+        object.__setattr__(fk, "armed", True)
+        from vlib.driver import drive
+        outs, _ = drive({"s": p.s.request_post_handshake_auth()}, p.link,
+                        on_stall="leave")
+        if not outs["s"].ok:
+            raise BaselineBroken("pha-request", repr(outs["s"]))
+        oc = sc.do_read(p, "c", 10, 0)
+        os_ = sc.do_read(p, "s", 10, 0)
+        if not fk.fired:
+            return good(nt=False, labels=labels + ["fault-site-not-reached"])
+        labels.append("victim=" + (describe_exc(oc.exc) if oc.exc
+                                   else oc.state))
+        if oc.state != "exc":
+            return bad("faulty-signature-not-noticed:" + case["fl"],
+                       "client read gave %r after its post-handshake "
+                       "signature was corrupted" % (oc,), labels=labels)
+        d = describe_exc(os_.exc) if os_.exc else ""
+        if "decrypt_error" in d or "TLSDecryptionFailed" in d or \
+                p.s.session.clientCertChain is not None:
+            return bad("faulty-signature-on-wire:tls13:" + case["fl"],
+                       "the server received the corrupted CertificateVerify: "
+                       "%s" % d, labels=labels)
+        if not isinstance(oc.exc, (BaseTLSException, OSError)):
+            return bad("fault-unrelated-exception:%s" % type(
+                oc.exc).__name__, repr(oc.exc), labels=labels)
+        return good(labels=labels)
     if not fk.fired:
         return good(nt=False, labels=labels + ["fault-site-not-reached"])
     vic, peer = (p.s, p.c) if f["who"] == "s" else (p.c, p.s)
@@ -807,7 +856,7 @@ def do_fault(case):
 
 # ---------------------------------------------------------------------------
 MUTS_RS = ["none", "sig_bit", "msg_bit", "other_hash", "other_key", "r_zero",
-           "s_zero", "r_order", "s_order", "r_plus_order", "s_plus_order",
+           "s_zero", "r1_s0", "r0_s0", "r1_sq", "r_order", "s_order", "r_plus_order", "s_plus_order",
            "trailing", "trailing_inside", "long_form", "pad_int", "empty",
            "truncate"]
 NONCANON = ["short_ps", "garbage_after", "block_type", "non_ff",
